@@ -202,7 +202,7 @@ def run_part(ctx):
     ctx.sharded(shard, nshards=len(hs), deadline=ctx.sub_deadline(0.5))
     ex = ctx.total.counters.get("executions", 0) - before
     ctx.cov["e3_threads"] = {
-        "schedules_explored": ex,
+        "schedules_explored": ex, "coarse_executions": ctx.total.counters.get("coarse_executions", 0),
         "schedule_points": ctx.total.counters.get("schedule_points", 0),
         "PB": "1 (line-level points)" if ctx.tier == "quick" else "1 with line-level points for every harness; 2 at sync-operation points for the DEEP list",
         "harnesses": len(hs),
